@@ -19,10 +19,12 @@ def run(repo: Repo, tier, rep: Report):
         rep.sample(dict(engine="O", **s))
     n = check_kinds(repo, rep, functions={"generate_snapshots", "parse_snapshots"})
     rep.floor("typed sinks (snapshot reader/writer)", n, 3)
-    from sa.fileformat import check_file_format, check_open_file_decorator
-    m = check_file_format(repo, rep, "snapshots")
-    m += check_open_file_decorator(repo, rep)
-    rep.floor("file-format rule instances (snapshots)", m, 35)
+    from sa.fileformat import check_file_format
+    from sa.line_model import check_parser, check_decorator
+    m = check_file_format(repo, rep, "snapshots", parts=("writer", "reader"))
+    rep.floor("writer/reader table instances (snapshots)", m, 12)
+    rep.floor("parser cases interpreted", check_parser(repo, rep, "snapshots"), 100)
+    rep.floor("open_file cases interpreted", check_decorator(repo, rep), 10)
     from sa.query_check import check_enumeration_dependency
     check_enumeration_dependency(repo, rep, common.enumeration_users(repo, ['generate_snapshots']))
     rep.assume(*common.CTOR_ASSUMPTIONS)
